@@ -5,7 +5,7 @@
 ID="$1"; V="$2"; BASE="$3"
 export GOFLAGS=-mod=mod GOPROXY=off GOSUMDB=off GOTOOLCHAIN=local
 ROOT="${SEEDROOT:-/tmp/seed}"; TAG="${SEEDTAG:-}"
-OUT=/verif/seeded/$ID-$TAG$V; WT=$ROOT/$ID; VB=/tmp/verif-base-$BASE
+OUT=/verif/seeded/$ID-$TAG$V; WT=$ROOT/$ID; VB=/tmp/verif-base-$BASE-$ID
 [ -f "$OUT/patch.diff" ] || { echo "$ID/$V: not confirmed yet"; exit 2; }
 [ -d "$VB" ] || git -C /verif worktree add --detach "$VB" "$BASE" >/dev/null 2>&1
 cd "$WT" || exit 2
